@@ -353,6 +353,43 @@ def flat_oracle(ctx):
     return s
 
 
+def self_suite(ctx):
+    """tie of `match_self`: a syntax tree exported as a template is what the theorem calls asTm (atoms -> literals, lists -> single items,
+    nodes -> node templates): the model accepts it against the tree itself with no bindings, and so does the real matcher"""
+    from pyrefact import core
+
+    s = Suite("self")
+    r = ctx.rng("self")
+    hier = hierarchy()
+    ignore = set(core.DEFAULT_IGNORE)
+    nodes = []
+    for (_sha, src, _f) in sweep.pick(sweep.generated_corpus(), ctx, 6) + sweep.pick(sweep.example_corpus(), ctx, 20):
+        try:
+            nodes += [n for n in ast.walk(ast.parse(src)) if isinstance(n, (ast.expr, ast.stmt))]
+        except SyntaxError:
+            pass
+    r.shuffle(nodes)
+    nodes = [n for n in nodes if len(ast.dump(n)) < 3000][: ctx.n(400, 4000)]
+    reqs, metas = [], []
+    for n in nodes:
+        try:
+            reqs.append({"suite": "match", "val": exp_val(n, ignore), "tmpl": exp_tm(n, ignore), "hier": hier})
+            metas.append(n)
+        except Unsupported:
+            continue
+    for n, ans in zip(metas, ctx.driver.ask(reqs)):
+        s.cases += 1
+        s.nt(ast.dump(n)[:300])
+        real = real_match(n, n, ignore)
+        if isinstance(real, str):
+            continue
+        model = {k: v for k, v in ans["b"]} if ans.get("m") else None
+        if model != {} or real != {}:
+            s.disagreements.append({"src": ast.unparse(n)[:200], "model": model, "real": real, "what": "a syntax tree used as its own template: model / real matcher do not both accept it with no bindings"})
+    s.note = "expression and statement nodes of corpus programs exported both as tree and as template: the model and core.match_template accept the pair with empty bindings"
+    return s
+
+
 # ---------------------------------------------------------------------------------------------- statement sequences
 
 SEQ_ATOMS = ["t = 1", "t = 2", "u = 1", "u = 2", "z = 0", "t = 1", "t = 2", "w = u"]
@@ -435,7 +472,7 @@ def sequence_oracle(ctx):
 
 def suites(ctx):
     common.import_pyrefact()
-    return [perms_suite(ctx), match_suite(ctx), flat_oracle(ctx), sequence_oracle(ctx)]
+    return [perms_suite(ctx), match_suite(ctx), self_suite(ctx), flat_oracle(ctx), sequence_oracle(ctx)]
 
 
 def match_known(d, known):
